@@ -30,22 +30,36 @@ R4 (K2/K10) tags: remove_tags is called only when the branch supports tags and k
 Does not decide: that the reconstructed pending merges equal the pre-commit ones for arbitrary histories.
 """
 
+#: locals of uncommit() by what they hold (astutil.bind_roles); the rules below use these role names
+UNCOMMIT_ROLES = {
+    "master": ("assign", "branch.get_master_branch()"),
+    "old_revno": ("assign", "branch.last_revision_info()", 0),
+    "old_tip": ("assign", "branch.last_revision_info()", 1),
+    "new_revno": ("assign", "revno - 1"),
+    "new_revision_id": ("assign", "{old_tip}"),
+    "graph": ("assign", "branch.repository.get_graph()"),
+    "rev_id": ("for", "{graph}.iter_lefthand_ancestry({old_tip})"),
+    "parents": ("assign", "[{new_revision_id}]"),
+}
+
 TREE_ALLOWED = {"lock_write", "unlock", "get_parent_ids", "set_parent_ids"}
 
 
 def run(ctx):
     repo = ctx.repo
-    fn, g, where = fn_cfg(ctx, UC, "uncommit")
+    fn, g, where = fn_cfg(ctx, UC, "uncommit", roles=UNCOMMIT_ROLES)
     # ---- R1 -----------------------------------------------------------------
     used = {}
     passed = []
+    # the list of objects to unlock at the end: bound to [] and iterated by the loop that calls .unlock()
+    unl = [norm(a) for l_ in walk_own(fn) if isinstance(l_, ast.For) and any(call_attr(c) == "unlock" and call_recv(c) == norm(l_.target) for c in calls_in(l_)) for a in ([l_.iter.args[0]] if isinstance(l_.iter, ast.Call) and norm(l_.iter.func) == "reversed" else [l_.iter])]
     for n in walk_own(fn):
         if isinstance(n, ast.Call):
             if call_recv(n) == "tree":
                 used.setdefault(call_attr(n), 0)
                 used[call_attr(n)] += 1
             for a in list(n.args) + [k.value for k in n.keywords]:
-                if isinstance(a, ast.Name) and a.id == "tree" and not (call_attr(n) == "append" and call_recv(n) == "unlockable"):
+                if isinstance(a, ast.Name) and a.id == "tree" and not (call_attr(n) == "append" and call_recv(n) in unl):
                     passed.append(norm(n)[:70])
     aliases = [norm(s) for s in walk_own(fn) if isinstance(s, ast.Assign) and isinstance(s.value, ast.Name) and s.value.id == "tree"]
     bad = sorted(set(used) - TREE_ALLOWED)
